@@ -7,9 +7,7 @@ Line-protocol handlers for property C08 (the evaluator model over IEEE doubles):
 * `c08.eval <expr>`   → `(<value> <sideEffects> <sideEffects with pure metamethods> <multi>)`
                         value ::= nil | true | false | (num f<bits>) | (str x<hex>) | table | function | unknown
 * `c08.h <expr>`      → `(<h8> <tag>*)` — is the expression inside the proved region; the tags name the
-                        failing conditions (`numeq` F1/F2, `numfmt` F3, `interp` F4, `refeq`)
-* `c08.panicclass <expr>` → `true`/`false` — some sub-expression evaluates to a string that is a hex literal with a binary
-                        exponent whose value overflows u64 (the real evaluator may panic there: known finding C12-F10)
+                        failing conditions (`numfmt` F3, `refeq`)
 * `c08.coerce x<hex>` → `(num f<bits>)` | `none` — `LuaValue::String(bytes).number_coercion()`
 * `c08.fmt f<bits>`   → `x<hex>` — `f64::to_string`
 * `c08.semnum f<bits>`→ `x<hex>` — the reference semantics' `tostring` of a number (diagnostics)
@@ -35,7 +33,6 @@ partial def why (e : Expr) : List String :=
     why l ++ why r ++
       (match op with
        | .eq | .ne =>
-         (if numEqOK E (evaluate E l) (evaluate E r) then [] else ["numeq"]) ++
          (if refEqOK E l r then [] else ["refeq"])
        | .concat => if concatOK E (evaluate E l) (evaluate E r) then [] else ["numfmt"]
        | _ => [])
@@ -45,7 +42,7 @@ partial def why (e : Expr) : List String :=
   | .interp segs =>
     segs.flatMap fun
       | .s _ => []
-      | .v e => why e ++ (if !isUnknown (evaluate E e) || hasSideEffects E false e then [] else ["interp"])
+      | .v e => why e
   | .cast e _ => why e
   | .inst e _ => why e
   | .table entries =>
@@ -54,28 +51,6 @@ partial def why (e : Expr) : List String :=
       | .named _ v => why v
       | .keyed k v => why k ++ why v
   | _ => []
-
-/-- does some sub-expression of `e` (outside function bodies) EVALUATE to a string of the hex-exponent
-overflow class on which the real `number_coercion` panics (C12-F10)? The string may be a literal or
-built by `..` / interpolation / `and` / `or` / if-expressions (`"0x1p4" .. 255`). -/
-partial def hasOverflowLit (e : Expr) : Bool :=
-  (match evaluate floatEvalOps e with
-   | .string s => hexExpOverflowStr s
-   | _ => false) ||
-  match e with
-  | .paren e | .un _ e | .cast e _ | .inst e _ | .field e _ => hasOverflowLit e
-  | .bin _ l r | .index l r => hasOverflowLit l || hasOverflowLit r
-  | .call f _ _ args => hasOverflowLit f || args.any hasOverflowLit
-  | .ifx c t elifs e =>
-    hasOverflowLit c || hasOverflowLit t || elifs.any (fun (a, b) => hasOverflowLit a || hasOverflowLit b) ||
-      hasOverflowLit e
-  | .interp segs => segs.any fun | .s _ => false | .v e => hasOverflowLit e
-  | .table entries =>
-    entries.any fun
-      | .pos v => hasOverflowLit v
-      | .named _ v => hasOverflowLit v
-      | .keyed k v => hasOverflowLit k || hasOverflowLit v
-  | _ => false
 
 def handle (op : String) (args : List String) : String :=
   match op, Sexp.parseArgs args with
@@ -90,10 +65,6 @@ def handle (op : String) (args : List String) : String :=
   | "h", some [e] =>
     match Expr.ofSexp? e with
     | some e => (Sexp.list (Sexp.ofBool (h8 floatEvalOps e) :: (why e).map Sexp.atom)).toString
-    | none => "bad-request"
-  | "panicclass", some [e] =>
-    match Expr.ofSexp? e with
-    | some e => toString (hasOverflowLit e)
     | none => "bad-request"
   | "coerce", some [.atom s] =>
     match hexToBytes? s with
